@@ -85,8 +85,8 @@ def cq_natlist(l):
 
 
 def cq_fixes(fx):
-    return "(mkFixes %s %s %s %s %s %s)" % tuple(coq_bool(fx[k]) for k in (
-        "skip_child", "sorted_enum", "dash_hides", "num_unset", "remove_safe", "dot_safe"))
+    return "(mkFixes %s %s %s %s %s %s %s)" % tuple(coq_bool(fx[k]) for k in (
+        "skip_child", "sorted_enum", "dash_hides", "num_unset", "remove_safe", "dot_safe", "hidden_stays"))
 
 
 STRIP = {"none": "StripNone", "nonencoded": "StripNonencoded", "full": "StripFull"}
@@ -123,6 +123,9 @@ def probe_jobs():
         # D22: a dangling symlink whose name starts with a dot
         {"op": "c07_listing", "dir": "/", "kinds": ["umn"], "perms": [[0, 1]],
          "tree": [f("a.txt"), {"path": ".zz", "kind": "symlink", "target": "nowhere"}]},
+        # D25: hidden by its .cap file, named again by a ./ block
+        {"op": "c07_listing", "dir": "/", "kinds": ["umn"], "perms": [[0, 1, 2]],
+         "tree": [f("fred"), f(".cap/fred", "Type=X\n"), f(".names", "Path=./fred\nName=Back\n")]},
     ]
 
 
@@ -142,6 +145,8 @@ def probe_fixes(res):
     r = only(res[4], "umn")[0]["result"]
     fx["remove_safe"] = "entries" in r
     fx["dot_safe"] = "entries" in only(res[5], "umn")[0]["result"]
+    r = only(res[6], "umn")[0]["result"]
+    fx["hidden_stays"] = "entries" in r and not any(e["selector"] == "/fred" for e in r["entries"])
     return fx
 
 
